@@ -3,6 +3,8 @@ import vlib
 from deque_common import DequeSpec
 from heap_common import HeapSpec, PQSpec
 
+SPECS = {"deque": (DequeSpec(iterators=True), "harness", "runner"), "heap": (HeapSpec(iterators=True), "harness", "runner"), "pq": (PQSpec(iterators=True), "harness", "runner")}
+
 PROP_FILES = ["C15_deque", "C15_heap"]
 
 
